@@ -14,6 +14,9 @@ def run_op(rep, h, nproc=None, bounds=None, replay_fn=None):
     """Explore harness h, replay candidate counterexamples, record in rep."""
     stats = symex.explore(h, nproc=nproc)
     b = dict(N=h.N, M=h.M)
+    known_preds = h.known_preds() if hasattr(h, "known_preds") else []
+    if replay_fn is None and hasattr(h, "replay"):
+        replay_fn = lambda hh, c: hh.replay(c)
     b.update(bounds or {})
     rep.add_exploration(h.label, stats, dict(h.counts), b)
     rep.functions |= ops.ENTERED
@@ -21,13 +24,16 @@ def run_op(rep, h, nproc=None, bounds=None, replay_fn=None):
     for k, v in h.witness.items():
         if k.startswith("known:"):
             fid = k[6:]
-            what = next((w for f, w, _ in h.known_preds() if f == fid), fid)
+            what = next((w for f, w, _ in known_preds if f == fid), fid)
             rep.known(fid, what)
             rep.known_hits[fid]["count"] += v - 1
         else:
             rep.witnesses[k] = rep.witnesses.get(k, 0) + v
     rep.note("%s: paths=%d decisions=%d viol_candidates=%d wall=%.1fs %s" % (
         h.label, stats["paths"], stats["decisions"], len(h.viol), stats["wall"], dict(h.counts)))
+    if h.counts.get("ans_true", 0) + h.counts.get("ans_false", 0) > 0 and hasattr(h, "expected") and h.expected() is not None \
+            and not h.witness.get("twin_negated_spec_detected"):
+        rep.inconclusive.append("%s: vacuity twin (negated specification) was not refuted on any path" % h.label)
     if not h.viol:
         return stats
     # replay distinct candidates (distinct by result kind first, then arbitrary)
